@@ -227,6 +227,34 @@ Definition of_key (k : N) (l : list event) : list event := filter (fun e => N.eq
 Definition pending_of (s : dst) (k : N) : list event :=
   match slot s k with Some (_, PCommitted e) => [e] | _ => [] end.
 
+(* ---- (3) SubscribeToSwampEvents at sync.Map granularity --------------------------------------
+   The function first Loads the swamp's subscriber map; if there is one it Stores the callback in
+   it, otherwise it builds a fresh map holding the callback and Stores that map under the swamp
+   name - over whatever is there by then.  Load and Store are separate steps. *)
+Inductive sstep := SLoad (c : N) | SStore (c : N).
+
+Record sst := { s_map : option (list N);        (* eventSubscribers[swamp] *)
+                s_seen : list (N * bool) }.     (* client -> its Load found a map *)
+
+Definition s_init : sst := {| s_map := None; s_seen := [] |}.
+
+Definition sstep_fn (s : sst) (x : sstep) : sst :=
+  match x with
+  | SLoad c =>
+      {| s_map := s_map s;
+         s_seen := (c, match s_map s with Some _ => true | None => false end) :: s_seen s |}
+  | SStore c =>
+      match find (fun p => N.eqb (fst p) c) (s_seen s) with
+      | Some (_, true) =>
+          {| s_map := match s_map s with Some l => Some (l ++ [c]) | None => Some [c] end;
+             s_seen := s_seen s |}
+      | Some (_, false) => {| s_map := Some [c]; s_seen := s_seen s |}
+      | None => s
+      end
+  end.
+
+Definition srun (tr : list sstep) : sst := fold_left sstep_fn tr s_init.
+
 (* ---- case checker ------------------------------------------------------------------------------ *)
 (* one observed SendMsg on a subscriber's stream *)
 Record omsg := {
